@@ -483,6 +483,34 @@ Definition lstep (p : list ltable) (o : op) : lres :=
               end
           end
       end
+  | OSetCell ti name (ARow i) (RScalar v) =>
+      (* dm[i].name = value: DataMatrix._getrow rejects the index with the generated bound test; Row.__setitem__ creates a
+         missing column (default type, default cells) and then assigns the cell like col[i] = value *)
+      match nth_error p ti with
+      | None => LSkip
+      | Some t =>
+          if k_getrow_oob i (Z.of_nat (nrows_l t)) then LErr
+          else
+            let t1 := match lookup name (l_names t) with
+                      | Some _ => t
+                      | None => lbind t name (List.length (l_cols t))
+                                      (l_cols t ++ [{| lc_kind := l_dflt t; lc_rowid := idx_of_list (ia (l_rowid t));
+                                                       lc_cells := repeat (default_cell (l_dflt t)) (nrows_l t);
+                                                       lc_owner := true; lc_tc := true |}])
+                      end in
+            match lookup name (l_names t1) with
+            | None => LSkip
+            | Some ci =>
+                match nth_error (l_cols t1) ci with
+                | None => LSkip
+                | Some c =>
+                    match nf (lc_kind c) v, norm_index (nrows_l t1) i with
+                    | Ok x, Some q => LUpd ti (with_cells t1 ci c (write_at [q] [x] (lc_cells c)))
+                    | _, _ => LErrUpd ti t1
+                    end
+                end
+            end
+      end
   | ODelCol ti name =>
       (* del dm[name]: the name is dropped, or ValueError *)
       match nth_error p ti with
